@@ -439,6 +439,17 @@ theorem stepIbc_measureV (cfg : Cfg) (s s' : State) (op : IbcOp) (g : Nat) (h : 
   rw [measureV_eq, measureV_eq, runFlow_obs (held3Obs_sound g) fl _ _ hr, held3_ibcFlow cfg op g fl hf, he]
   simp only [inFlight]; omega
 
+theorem run_measureV (s s1 : State) (fl : List Prim) (g : Nat) (h : run s fl = .ok s1) :
+    measureV s1 g = measureV s g + (held3Obs g).flowDelta fl := by
+  obtain ⟨L', hL, rfl⟩ := run_ok h
+  rw [measureV_eq, measureV_eq, runFlow_obs (held3Obs_sound g) fl _ _ hL]
+  simp only [inFlight]; omega
+
+theorem held3_precompileTokenIn (g' : Nat) (k : Kind) (g u n : Nat) :
+    (held3Obs g').flowDelta (precompileTokenIn k g (U u) n) = 0 := by
+  rw [held3Obs, flowDelta_add, held_precompileTokenIn g' k g u n,
+    clean_delta (vheldObs_voucherOnly g') _ (clean_precompileTokenIn k g (U u) n)]; rfl
+
 /-- conserved quantity of the IBC layer -/
 def measure3 (s : State3) (g : Nat) : Int := measureV s.s2.base g - (s.ibcIn g : Int) + (s.ibcOut g : Int)
 
@@ -487,6 +498,31 @@ theorem step3_measure (cfg : Cfg) (s s' : State3) (op : Op3) (g : Nat) (h : step
           have m2 := stepIbc_measureV cfg _ _ _ g h2
           have m3 := stepIbc_measureV cfg _ _ _ g h3
           simp only [measure3, setBase, m3, m2, m1, ibcDelta, bump_val]; omega
+  | xibc g0 u n =>
+    simp only [step3] at h
+    split at h
+    · cases h
+    · cases hk : cfg.kind g0 with
+      | none => simp [hk] at h
+      | some kp =>
+        simp only [hk] at h
+        cases h1 : run s.s2.base (precompileTokenIn kp g0 (U u) n) with
+        | error e => simp [h1] at h
+        | ok b1 =>
+          simp only [h1] at h
+          cases h2 : stepIbc cfg b1 (.toIbc g0 u n) with
+          | error e => simp [h2] at h
+          | ok b2 =>
+            simp only [h2] at h
+            cases h3 : stepIbc cfg b2 (.xfer g0 u n) with
+            | error e => simp [h3] at h
+            | ok b3 =>
+              simp only [h3, Except.ok.injEq] at h; subst h
+              have m1 := run_measureV _ _ _ g h1
+              rw [held3_precompileTokenIn] at m1
+              have m2 := stepIbc_measureV cfg _ _ _ g h2
+              have m3 := stepIbc_measureV cfg _ _ _ g h3
+              simp only [measure3, setBase, m3, m2, m1, ibcDelta, bump_val]; omega
 
 theorem runOps3_measure (cfg : Cfg) (ops : List Op3) (s : State3) (g : Nat) :
     measure3 (runOps3 cfg s ops) g = measure3 s g := by
@@ -499,6 +535,47 @@ theorem runOps3_measure (cfg : Cfg) (ops : List Op3) (s : State3) (g : Nat) :
     cases h : step3 cfg s op with
     | error e => rfl
     | ok s' => exact step3_measure cfg s s' op g h
+
+/-! ### the claim-layer invariant is untouched by the IBC operations -/
+
+theorem credInv_setBase {s : State2} (b : State) (hi : CredInv s) : CredInv { s with base := b } :=
+  ⟨hi.pend_seen, hi.pend_zero, hi.le_claimed⟩
+
+theorem step3_cred (cfg : Cfg) (s s' : State3) (op : Op3) (h : step3 cfg s op = .ok s') (hi : CredInv s.s2) : CredInv s'.s2 := by
+  cases op with
+  | claim op =>
+    simp only [step3] at h
+    cases h2 : step2 cfg s.s2 op with
+    | error e => simp [h2] at h
+    | ok t => simp only [h2, Except.ok.injEq] at h; subst h; exact step2_cred cfg s.s2 t op h2 hi
+  | ibc op =>
+    simp only [step3] at h
+    cases hib : stepIbc cfg s.s2.base op with
+    | error e => simp [hib] at h
+    | ok b =>
+      simp only [hib] at h
+      cases op <;> simp only [Except.ok.injEq] at h <;> subst h <;> exact credInv_setBase b hi
+  | depositIbc c g u n =>
+    simp only [step3] at h
+    repeat' (split at h)
+    all_goals (first | cases h | skip)
+    exact credInv_setBase _ hi
+  | xibc g u n =>
+    simp only [step3] at h
+    repeat' (split at h)
+    all_goals (first | cases h | skip)
+    exact credInv_setBase _ hi
+
+theorem runOps3_cred (cfg : Cfg) (ops : List Op3) (s : State3) (hi : CredInv s.s2) : CredInv (runOps3 cfg s ops).s2 := by
+  induction ops generalizing s with
+  | nil => exact hi
+  | cons op ops ih =>
+    simp only [runOps3, List.foldl_cons] at ih ⊢
+    apply ih
+    unfold stepT3
+    cases h : step3 cfg s op with
+    | error e => exact hi
+    | ok s' => exact step3_cred cfg s s' op h hi
 
 /-! ### per account -/
 
